@@ -43,6 +43,7 @@ type workerOut struct {
 	CursorChecks int64
 	Pruned       int64
 	Capped       bool
+	Tainted      bool
 	Samples      [][]string
 	Violations   []evid.Violation
 }
@@ -92,6 +93,14 @@ func replayHistory(scratch string, cfg cacheCfg, hist []string) []failure {
 	return out
 }
 
+// populated is the second initial state: every bucket exists and holds keys, committed and made
+// durable by a close+reopen, so that deletes and overwrites of durable data, cached removals and
+// their flush are reachable within a few operations.
+var populated = []event{
+	{Body: []string{"p:001", "p:020", "mk:1", "p:111", "p:100", "mk:2", "p:210"}},
+	{Reopen: true},
+}
+
 func runWorker(r *evid.Run, job string) {
 	rand.Seed(1) // treap priorities of the transaction/cache treaps: fixed per worker
 	f := strings.Split(job, ":")
@@ -102,6 +111,9 @@ func runWorker(r *evid.Run, job string) {
 	scratch := evid.Scratch("c16w")
 	defer os.RemoveAll(scratch)
 	e := &explorer{cfg: cfg, depth: depth, shard: shard, nshards: nshards, scratch: scratch, memo: map[string]int{}, fails: map[string]*recorded{}, stop: r.Expired}
+	if len(f) > 4 && f[4] == "populated" {
+		e.init = populated
+	}
 	in := e.fresh(nil)
 	var cur *inst // instance executing an operation (for the history of a panic)
 	e.onExec = func(x *inst) { cur = x }
@@ -128,7 +140,7 @@ func runWorker(r *evid.Run, job string) {
 		in.close()
 	}()
 	out := workerOut{Job: job, TxStates: e.txStates, OuterStates: e.outerStates, Transitions: e.transitions, Executions: e.executions,
-		Commits: e.commits, Reopens: e.reopens, FailedUpd: e.failedUpd, Rollbacks: e.rollbacks, CursorChecks: e.cursorChecks, Pruned: e.pruned, Capped: e.capped, Samples: e.samples}
+		Commits: e.commits, Reopens: e.reopens, FailedUpd: e.failedUpd, Rollbacks: e.rollbacks, CursorChecks: e.cursorChecks, Pruned: e.pruned, Capped: e.capped && !e.tainted, Tainted: e.tainted, Samples: e.samples}
 	for _, sig := range e.order {
 		rec := e.fails[sig]
 		// confirm by two plain replays of the recorded history on fresh databases
@@ -175,11 +187,18 @@ func main() {
 	if s := os.Getenv("VERIF_C16_DEPTH"); s != "" {
 		depth, _ = strconv.Atoi(s)
 	}
+	// second initial state (populated and durable): two operations less (its alphabet is larger)
+	depthPop := depth - 2
 	nshards := 16
 	var jobs []string
 	for _, c := range cacheCfgs {
 		for s := 0; s < nshards; s++ {
-			jobs = append(jobs, fmt.Sprintf("%s:%d:%d:%d", c.Name, s, nshards, depth))
+			jobs = append(jobs, fmt.Sprintf("%s:%d:%d:%d:empty", c.Name, s, nshards, depth))
+		}
+	}
+	for _, c := range cacheCfgs {
+		for s := 0; s < nshards; s++ {
+			jobs = append(jobs, fmt.Sprintf("%s:%d:%d:%d:populated", c.Name, s, nshards, depthPop))
 		}
 	}
 	scratch := evid.Scratch("c16")
@@ -209,7 +228,7 @@ func main() {
 		tot.Rollbacks += o.Rollbacks
 		tot.CursorChecks += o.CursorChecks
 		tot.Pruned += o.Pruned
-		capped = capped || o.Capped
+		capped = capped || o.Capped || o.Tainted
 		cn := strings.SplitN(o.Job, ":", 2)[0]
 		for _, v := range o.Violations {
 			all = append(all, v)
@@ -278,7 +297,7 @@ func main() {
 		"cache_configurations":            cn,
 		"exhaustive":                      !capped,
 		"samples":                         samples,
-		"rule": "operations {begin(rw|ro), put/delete on 3 buckets (root, x, x/y) x 3 keys x 2 values, createBucket/deleteBucket x,y, storeBlock (max 2), cursor(bucket), cursor First/Last/Next/Prev/Seek(k)/Delete, commit, rollback, update-returning-error, close+reopen}; all histories up to the depth bound (number of operations), explored per cache configuration; " +
+		"rule": "operations {begin(rw|ro), put/delete on 3 buckets (root, x, x/y) x 3 keys x 2 values, createBucket/deleteBucket x,y, storeBlock (max 2), cursor(bucket), cursor First/Last/Next/Prev/Seek(k)/Delete, commit, rollback, update-returning-error, close+reopen}; all histories up to the depth bound (number of operations), explored per cache configuration from the empty database and (two operations less) from a populated, durable one (all three buckets with keys, committed, closed and reopened); " +
 			"transaction states merged on (visible content, pending status of every key and bucket, stored blocks, cursor bucket/position/validity and the cursor's operation history since its last First/Last/Seek); committed states merged on (content, blocks, bucket id counter, cached entries, just-reopened); every merged state is reached by replaying its shortest history on the real database; " +
 			"oracle after every operation: existence of every bucket, Get of every key, ForEach, ForEachBucket, full cursor forward = ForEach + ForEachBucket and backward = mirror image, Writable, blocks, documented error codes of non-mutating bad calls; after commit/rollback/failed Update/reopen the same in a fresh read-only transaction plus ErrTxClosed on every stale handle",
 	}
